@@ -298,6 +298,97 @@ theorem authentic_trusted_iff (node : Nat) (r : Rec) (hk : r.kind = .trusted) :
     intro hall; apply h
     exact List.all_eq_true.2 (fun i hi => by simpa using hall i hi)
 
+/-! ### the whole-NodeInfo entry point (`NodeInfo::verify`, `AddressBook::insert_node_info`) -/
+
+/-- **C27 (node-info insert sound)**: `insert_node_info` stores only node infos whose transports pass
+    verification — whatever was stored and whatever the timestamps; a node info failing `NodeInfo::verify`
+    is answered with the error and leaves the entry (row and transports) untouched. -/
+theorem c27_nodeinfo_insert_sound (node : Nat) (b : Book) (t : Option Rec) :
+    (nodeInfoVerify node t = none →
+        (insertNodeInfo node b t).1 = { row := true, reg := t } ∧
+        (insertNodeInfo node b t).2 = .ok (!b.row)) ∧
+    (∀ e, nodeInfoVerify node t = some e →
+        (insertNodeInfo node b t).1 = b ∧ (insertNodeInfo node b t).2 = .err e) ∧
+    (∀ m, (insertNodeInfo node b t).1.reg = some m → b.reg = some m ∨ (t = some m ∧ authentic node m = true)) := by
+  refine ⟨?_, ?_, ?_⟩
+  · intro h; simp [insertNodeInfo, h]
+  · intro e h; simp [insertNodeInfo, h]
+  · intro m hm
+    unfold insertNodeInfo at hm
+    cases hv : nodeInfoVerify node t with
+    | some e => rw [hv] at hm; left; exact hm
+    | none =>
+      rw [hv] at hm
+      simp only at hm
+      right
+      refine ⟨hm, ?_⟩
+      rw [hm] at hv
+      simpa [nodeInfoVerify, authentic] using congrArg Option.isNone hv
+
+/-- The record-arrival entry point on a book entry changes the transports exactly like `update`. -/
+theorem arrive_reg (node : Nat) (b : Book) (r : Rec) : (arrive node b r).1.reg = (update node b.reg r).1 := by
+  unfold arrive
+  cases h : (update node b.reg r).2 with
+  | ok newer => rfl
+  | err e =>
+    simp only
+    -- an error leaves the register untouched
+    have : authentic node r = false := by
+      unfold update at h
+      cases hv : verify node r with
+      | none =>
+        rw [hv] at h
+        cases hreg : b.reg with
+        | none => rw [hreg] at h; simp at h
+        | some c => rw [hreg] at h; by_cases hlt : c.ts < r.ts <;> simp [hlt] at h
+      | some e' => simp [authentic, hv]
+    exact ((c27_forged_step node b.reg r this).1).symm
+
+/-- **C27 (both entry points, any history)**: whatever mix of arriving records and complete node infos
+    (authentic, forged, trusted with a mismatching id, without transports) is applied to a node's entry,
+    the stored transports — if any — are a record of the history that passes verification for this node. -/
+theorem c27_book_always_authentic (node : Nat) (ops : List Op) (b : Book)
+    (hb : ∀ m, b.reg = some m → authentic node m = true) :
+    ∀ m, (runOps node b ops).reg = some m → authentic node m = true := by
+  induction ops generalizing b with
+  | nil => simpa [runOps] using hb
+  | cons op ops ih =>
+    have hstep : ∀ m, (applyOp node b op).reg = some m → authentic node m = true := by
+      intro m hm
+      cases op with
+      | transport r =>
+        simp only [applyOp] at hm
+        rw [arrive_reg] at hm
+        have := c27_forged_never_stored node [r] b.reg m (by simpa [run] using hm)
+        rcases this with h | ⟨h1, h2⟩
+        · exact hb m h
+        · exact h2
+      | nodeInfo t =>
+        simp only [applyOp] at hm
+        rcases (c27_nodeinfo_insert_sound node b t).2.2 m hm with h | ⟨_, h⟩
+        · exact hb m h
+        · exact h
+    exact ih (applyOp node b op) hstep
+
+/-- `NodeInfo::verify` as `rs2lean` translates the current text: *any* stored transports — signed or
+    trusted — are handed to `TransportInfo::verify` against the node id; only a node info without
+    transports is accepted unchecked. -/
+theorem c27_nodeinfo_verify_is_source (node : Nat) (t : Option Rec) :
+    nodeInfoVerify node t = P2.Extracted.C27.nodeInfoVerifyT t (verify node) := by
+  unfold nodeInfoVerify P2.Extracted.C27.nodeInfoVerifyT
+  cases t <;> rfl
+
+/-- Text ties: `TransportInfo::verify` dispatches to the variant's own `verify` for *both* variants, and
+    the actor's two handlers verify before touching the store. -/
+theorem c27_entry_points_shape :
+    P2.Extracted.C27.transportInfoVerifyArms =
+      "TransportInfo::Trusted(info) => info.verify(node_id), TransportInfo::Authenticated(info) => info.verify(node_id)," ∧
+    P2.Extracted.C27.actorInsertNodeInfoGuard =
+      "if let Err(err) = node_info.verify() { let _ = reply.send(Err(err)); return Ok(()); }" ∧
+    P2.Extracted.C27.actorInsertTransportGuard =
+      "if let Err(err) = transport_info.verify(&node_id) { let _ = reply.send(Err(err)); return Ok(()); }" := by
+  decide
+
 /-! ### ties to the source text (regenerated from /repo on every run) -/
 
 /-- The `Some(current)` arm of `update_transports`, as `rs2lean` translates the current Rust text
@@ -351,5 +442,9 @@ example : run 1 none sample = some (mk 1 7 1 13) := by decide
 example : run 1 none sample.reverse = some (mk 1 7 1 13) := by decide
 example : DistinctTs 1 sample := by
   intro a ha b hb; revert a b; decide
+
+example : (runOps 1 Book.empty [.transport (mk 1 5 0 10),
+    .nodeInfo (some { kind := .trusted, ts := ⟨9, 0⟩, payload := 11, addrIds := [2], sigKey := 0, sigTs := ⟨0, 0⟩, sigPayload := 0 })]).reg
+    = some (mk 1 5 0 10) := by decide
 
 end P2.C27
